@@ -70,7 +70,9 @@ def step (d : CD) (toks : List String) (impl : String) : CD × Res :=
       let radiusIdeal := if pers > d.cap * 19 / 20 && maxKept != "-" then beVal (unhex maxKept) else maxRadius
       let mon := (if !genuine then ["items_genuine"] else [])
         ++ (if pers < heldO then ["counter_ge_held"] else [])
-        ++ (if heldO > d.cap && pers > d.cap then ["open_prunes_overcap"] else [])
+        -- one pruning pass on open frees 5 % (or everything), which need not bring a store of large items under its capacity:
+        -- an image still over capacity is only wrong when no batch prefix pruned once explains it
+        ++ (if heldO > d.cap && pers > d.cap && !explained then ["open_prunes_overcap"] else [])
         ++ (if radius != radiusIdeal then ["open_radius_is_farthest"] else [])
         ++ (if !explained then ["image_is_a_batch_prefix"] else [])
       (d, { model := "", skipCompare := true, monitor := mon,
